@@ -165,18 +165,44 @@ var bigDicts = func() (d [3][]byte) {
 	return
 }()
 
+// hugeDicts are two incompressible 24 KiB dictionaries for long chunks (Config.Resources = 21, 22).
+var hugeDicts = func() (d [2][]byte) {
+	x := uint32(777)
+	for k := range d {
+		d[k] = make([]byte, 24<<10)
+		for i := range d[k] {
+			x = x*1664525 + 1013904223
+			d[k][i] = byte(x >> 24)
+		}
+	}
+	return
+}()
+
 // dictPayload builds nChunks chunks of chunkLen bytes: chunk i is an excerpt of bigDicts[use[i]-1]
 // when use[i] is 1 or 2, and unrelated incompressible bytes otherwise.
 func dictPayload(nChunks, chunkLen int, use map[int]int) []byte {
 	p := make([]byte, 0, nChunks*chunkLen)
 	x := uint32(99)
 	for i := 0; i < nChunks; i++ {
+		fill := chunkLen
 		if u := use[i]; u > 0 {
-			off := (i * 37) % (len(bigDicts[u-1]) - chunkLen)
-			p = append(p, bigDicts[u-1][off:off+chunkLen]...)
-			continue
+			ex := chunkLen
+			d := bigDicts[u-1]
+			if chunkLen > 400 {
+				// a longer chunk: an excerpt (a quarter of the chunk, at most 12000 bytes) of a 24 KiB
+				// dictionary followed by incompressible bytes, so that its compressed size is about
+				// chunkLen - excerpt and the dictionary still wins the Writer's "below 98.4% of the
+				// baseline" test up to ~700 KB chunks
+				ex, d = chunkLen/4, hugeDicts[u-1]
+				if ex > 12000 {
+					ex = 12000
+				}
+			}
+			off := (i * 37) % (len(d) - ex)
+			p = append(p, d[off:off+ex]...)
+			fill -= ex
 		}
-		for j := 0; j < chunkLen; j++ {
+		for j := 0; j < fill; j++ {
 			x = x*22695477 + 1
 			p = append(p, byte(x>>24))
 		}
@@ -240,7 +266,12 @@ func runWriter(cfg Config, payload []byte) (o outcome) {
 	for i := 0; i < cfg.Resources && i < 3; i++ {
 		w.ResourcesData = append(w.ResourcesData, dicts[i])
 	}
-	if cfg.Resources > 10 {
+	if cfg.Resources > 20 {
+		w.ResourcesData = nil
+		for i := 0; i < cfg.Resources-20 && i < 2; i++ {
+			w.ResourcesData = append(w.ResourcesData, hugeDicts[i])
+		}
+	} else if cfg.Resources > 10 {
 		w.ResourcesData = nil
 		for i := 0; i < cfg.Resources-10 && i < 3; i++ {
 			w.ResourcesData = append(w.ResourcesData, bigDicts[i])
@@ -403,6 +434,11 @@ func checkOne(r *ev.Run, st *stats, cfg Config, payload []byte, hist map[string]
 		return o.wOps, o.tOps, true
 	}
 	hist[fmt.Sprintf("leaves:%d", bucket(len(leaves)))]++
+	for _, l := range leaves {
+		if n := l.Primary[1] - l.Primary[0]; n >= 1000 {
+			hist[fmt.Sprintf("primary-crange-KiB:%d", (n+1023)/1024)]++
+		}
+	}
 	if cfg.Resources > 0 {
 		nd := 0
 		for _, l := range leaves {
@@ -764,6 +800,33 @@ func main() {
 			}
 		}
 	}
+	// compressed chunk sizes around the unit boundaries of the index's one-byte CLen field
+	// (1024-byte units; 0 = "unbounded" above 255 units): two chunks per file whose compressed
+	// size sweeps k KiB for k in {1, 2, 255, 256} in 128-byte steps (thorough: 32), without a
+	// dictionary and with 1 / 2 really used dictionaries (STag index 0 and 1), both index
+	// locations. Histogram "primary-crange-KiB" shows which sizes the written files really had.
+	{
+		step := 128
+		if thorough {
+			step = 32
+		}
+		for _, span := range [][2]int{{1000, 4200}, {253*1024 + 11000, 259*1024 + 11000}} {
+			for d := span[0]; d <= span[1]; d += step {
+				for _, res := range []int{0, 21, 22} {
+					use := map[int]int{}
+					if res == 21 {
+						use = map[int]int{0: 1, 1: 1}
+					} else if res == 22 {
+						use = map[int]int{0: 1, 1: 2}
+					}
+					p := dictPayload(2, d, use)
+					for _, loc := range []bool{false, true} {
+						add(Config{Codec: "zlib", DChunk: uint64(d), AtStart: loc, Resources: res, Partition: []int{len(p)}}, p)
+					}
+				}
+			}
+		}
+	}
 	if thorough {
 		p := mk(255*255+3, "alt")
 		add(Config{Codec: "lz4", DChunk: 1, Partition: []int{len(p)}}, p)
@@ -846,7 +909,7 @@ func main() {
 		DistinctNontrivial: st.nontrivial.Load() + faultPoints.Load(),
 		Rule: "A: every payload over {00,01,'a'} up to length L x every partition into Write calls x DChunkSize{1,2,3,7,64} x index location x CPageSize{0,4}; " +
 			"B: every alternation of 4..N zero/non-zero runs with run lengths {1,2,3,5} x uniform write steps {1,2,3,5,all} x CChunkSize set; " +
-			"C: structured payloads x {zlib,lz4,zstd} x sizing x page size x index location/temp-file kind x resources x partitions, incl. the arity-255 boundary, and 300/520-chunk files whose chunks really use 1-2 shared dictionaries at every position near the branch boundaries; " +
+			"C: structured payloads x {zlib,lz4,zstd} x sizing x page size x index location/temp-file kind x resources x partitions, incl. the arity-255 boundary, compressed chunk sizes swept across the CLen unit boundaries (1, 2, 255, 256 KiB) with 0-2 used dictionaries, and 300/520-chunk files whose chunks really use 1-2 shared dictionaries at every position near the branch boundaries; " +
 			"D: for each base configuration every fault point k of the underlying Writer and TempFile (fail-from-k and fail-once). Oracles: independent spec validator, rac.Reader round trip, independent zlib walker; faults: Close non-nil and sticky. " +
 			"non-trivial = successful file with more than one leaf, or a fault-point run",
 		Exhaustive: true,
